@@ -363,6 +363,7 @@ pub trait MOnly {
         #[path(encoder = DisplaySeqEncoder)] tail: &[String],
         #[query(name = "k&ey", encoder = PickyEncoder)] q: &[i32],
         #[query(name = "o", encoder = DisplaySeqEncoder)] opt: Option<i32>,
+        #[header(name = "X-Opt-Num", encoder = DisplaySeqEncoder)] opt_num: Option<i32>,
     ) -> Result<String, Error>;
 }
 
@@ -376,6 +377,7 @@ pub trait MOnlyAsync {
         #[path(encoder = DisplaySeqEncoder)] tail: &[String],
         #[query(name = "k&ey", encoder = PickyEncoder)] q: &[i32],
         #[query(name = "o", encoder = DisplaySeqEncoder)] opt: Option<i32>,
+        #[header(name = "X-Opt-Num", encoder = DisplaySeqEncoder)] opt_num: Option<i32>,
     ) -> Result<String, Error>;
 }
 
@@ -389,6 +391,7 @@ pub trait MOnlySrv {
         #[path(decoder = FromStrSeqDecoder<_>)] tail: Vec<String>,
         #[query(name = "k&ey", decoder = FromStrSeqDecoder<_>, log_as = "q")] q: Vec<i32>,
         #[query(name = "o", decoder = FromStrOptionDecoder, log_as = "opt")] opt: Option<i32>,
+        #[header(name = "X-Opt-Num", decoder = FromStrOptionDecoder, log_as = "optNum")] opt_num: Option<i32>,
     ) -> Result<String, Error>;
 }
 
@@ -402,14 +405,15 @@ pub trait MOnlySrvAsync {
         #[path(decoder = FromStrSeqDecoder<_>)] tail: Vec<String>,
         #[query(name = "k&ey", decoder = FromStrSeqDecoder<_>, log_as = "q")] q: Vec<i32>,
         #[query(name = "o", decoder = FromStrOptionDecoder, log_as = "opt")] opt: Option<i32>,
+        #[header(name = "X-Opt-Num", decoder = FromStrOptionDecoder, log_as = "optNum")] opt_num: Option<i32>,
     ) -> Result<String, Error>;
 }
 
 macro_rules! only_handler_impl {
     ($trait_:ident, $($async_:ident)?) => {
         impl $trait_ for Handler {
-            $($async_)? fn segments(&self, head: String, num: i32, tail: Vec<String>, q: Vec<i32>, opt: Option<i32>) -> Result<String, Error> {
-                crate::glue::take_ret::<String>(self.enter(idx("MacroOnly", "segments"), vec![("headSegment", bx(head)), ("theNumber", bx(num)), ("tail", bx(tail)), ("q", bx(q)), ("opt", bx(opt))], None)?)
+            $($async_)? fn segments(&self, head: String, num: i32, tail: Vec<String>, q: Vec<i32>, opt: Option<i32>, opt_num: Option<i32>) -> Result<String, Error> {
+                crate::glue::take_ret::<String>(self.enter(idx("MacroOnly", "segments"), vec![("headSegment", bx(head)), ("theNumber", bx(num)), ("tail", bx(tail)), ("q", bx(q)), ("opt", bx(opt)), ("optNum", bx(opt_num))], None)?)
             }
         }
     };
@@ -442,7 +446,8 @@ pub fn gen_args(ep: usize, t: &mut crate::tape::Tape, g: &crate::glue::GenKnobs)
     let q = <Vec<i32> as Gen>::gen(t, &g.at(Kind::Query, false));
     let opt = <Option<i32> as Gen>::gen(t, &g.at(Kind::Query, false));
     let num = <i32 as Gen>::gen(t, &g.at(Kind::Path, false));
-    vec![ArgVal::new("headSegment", bx(head)), ArgVal::new("theNumber", bx(num)), ArgVal::new("tail", bx(tail)), ArgVal::new("q", bx(q)), ArgVal::new("opt", bx(opt))]
+    let opt_num = <Option<i32> as Gen>::gen(t, &g.at(Kind::Header, false));
+    vec![ArgVal::new("headSegment", bx(head)), ArgVal::new("theNumber", bx(num)), ArgVal::new("tail", bx(tail)), ArgVal::new("q", bx(q)), ArgVal::new("opt", bx(opt)), ArgVal::new("optNum", bx(opt_num))]
 }
 
 pub fn gen_ret(ep: usize, t: &mut crate::tape::Tape, g: &crate::glue::GenKnobs) -> Box<dyn DynVal> {
@@ -592,7 +597,7 @@ pub fn call_blocking(tr: &SimTransport, kind: ClientKind, ep: usize, args: &[Arg
         (ClientKind::Macro, "ReturnService", "retOptString") => MRetClient::new(tr.clone()).ret_opt_string().map(bx),
         (ClientKind::Macro, "ReturnService", "retList") => MRetClient::new(tr.clone()).ret_list().map(bx),
         (ClientKind::Macro, "BodyService", "bodyNode") => MBodyClient::new(tr.clone()).body_node(args[0].get()).map(bx),
-        (_, "MacroOnly", "segments") => MOnlyClient::new(tr.clone()).segments(args[0].get::<String>(), *args[1].get::<i32>(), args[2].get::<Vec<String>>(), args[3].get::<Vec<i32>>(), *args[4].get::<Option<i32>>()).map(bx),
+        (_, "MacroOnly", "segments") => MOnlyClient::new(tr.clone()).segments(args[0].get::<String>(), *args[1].get::<i32>(), args[2].get::<Vec<String>>(), args[3].get::<Vec<i32>>(), *args[4].get::<Option<i32>>(), *args[5].get::<Option<i32>>()).map(bx),
         (ClientKind::Smile, "ReturnService", "retNode") => SRetClient::new(tr.clone()).ret_node().map(bx),
         (ClientKind::Smile, "ReturnService", "retKeys") => SRetClient::new(tr.clone()).ret_keys().map(bx),
         (ClientKind::Smile, "ReturnService", "retDouble") => SRetClient::new(tr.clone()).ret_double().map(bx),
@@ -621,7 +626,7 @@ pub async fn call_async(tr: &SimTransport, kind: ClientKind, ep: usize, args: &[
         (ClientKind::Macro, "ReturnService", "retOptString") => MRetAsyncClient::new(tr.clone()).ret_opt_string().await.map(bx),
         (ClientKind::Macro, "ReturnService", "retList") => MRetAsyncClient::new(tr.clone()).ret_list().await.map(bx),
         (ClientKind::Macro, "BodyService", "bodyNode") => MBodyAsyncClient::new(tr.clone()).body_node(args[0].get()).await.map(bx),
-        (_, "MacroOnly", "segments") => MOnlyAsyncClient::new(tr.clone()).segments(args[0].get::<String>(), *args[1].get::<i32>(), args[2].get::<Vec<String>>(), args[3].get::<Vec<i32>>(), *args[4].get::<Option<i32>>()).await.map(bx),
+        (_, "MacroOnly", "segments") => MOnlyAsyncClient::new(tr.clone()).segments(args[0].get::<String>(), *args[1].get::<i32>(), args[2].get::<Vec<String>>(), args[3].get::<Vec<i32>>(), *args[4].get::<Option<i32>>(), *args[5].get::<Option<i32>>()).await.map(bx),
         (ClientKind::Smile, "ReturnService", "retNode") => SRetAsyncClient::new(tr.clone()).ret_node().await.map(bx),
         (ClientKind::Smile, "ReturnService", "retKeys") => SRetAsyncClient::new(tr.clone()).ret_keys().await.map(bx),
         (ClientKind::Smile, "ReturnService", "retDouble") => SRetAsyncClient::new(tr.clone()).ret_double().await.map(bx),
